@@ -25,13 +25,11 @@ Pub(n, m) == [i \in 1..n |-> (i * m + 3) % 256]
 Keys ==
   {[k |-> [flags |-> 256, proto |-> 3, alg |-> 15, pub |-> Pub(32, 7)], owner |-> <<ex>>],
    [k |-> [flags |-> 257, proto |-> 3, alg |-> 13, pub |-> Pub(64, 251)], owner |-> <<Ex>>]}
-  \cup (IF Thorough
-        THEN {[k |-> [flags |-> 0, proto |-> 3, alg |-> 1, pub |-> Pub(67, 13)], owner |-> <<>>]}
-        ELSE {})
 
-Times == {[inc |-> <<0, 0, 0, 0>>, exp |-> <<0, 0, 0, 100>>]}
-         \cup (IF Thorough THEN {[inc |-> <<255, 255, 255, 0>>, exp |-> <<0, 0, 1, 0>>]} ELSE {})
-Ttls == IF Thorough THEN {3600, 2147483647} ELSE {3600}
+Times == IF Thorough THEN {[inc |-> <<0, 0, 0, 0>>, exp |-> <<0, 0, 0, 100>>], [inc |-> <<255, 255, 255, 0>>, exp |-> <<0, 0, 1, 0>>]}
+         ELSE {[inc |-> <<0, 0, 0, 0>>, exp |-> <<0, 0, 0, 100>>]}
+
+Ttls == {3600}
 
 SoaTail == <<0, 0, 0, 1,  0, 0, 14, 16,  0, 0, 3, 132,  0, 9, 58, 128,  0, 0, 1, 44>>
 RdSets == {
